@@ -241,6 +241,12 @@ def unit_gauss_contracts():
     return out
 
 
+def unit_anysize_rate(model, n, vec, limit, use_t):
+    """the real rate() on n teams of every size (anysize.rate_units)"""
+    from . import anysize
+    return anysize.rate_units("C06", model, n, vec, limit, use_t)
+
+
 def units(tier):
     us = [("unit_lemmas", ())]
     nmax = 4 if tier == "quick" else 8
@@ -263,6 +269,9 @@ def units(tier):
                 us.append(("unit_rate", (m, (1, 1) if tier == "quick" else (2, 1), vec, limit, True)))
     us.sort(key=lambda u: (-(sum(u[1][1]) * 2 ** len(u[1][1])) if u[0] not in ("unit_lemmas", "unit_anysize") else (-(2 ** u[1][1]) if u[0] == "unit_anysize" else 0)))
     us.insert(0, ("unit_gauss_contracts", ()))
+    for m in extract.MODELS:
+        for a in ([(2, 'ranks', False, True), (2, 'scores', True, False), (3, 'none', False, False)] if tier == "quick" else [(2, 'ranks', False, True), (2, 'scores', True, False), (3, 'none', False, False), (3, 'ranks', False, True), (3, 'scores', False, False), (2, 'none', True, True), (4, 'ranks', False, False)]):
+            us.append(("unit_anysize_rate", (m,) + a))
     return us
 
 
@@ -285,5 +294,5 @@ def main(tier, seed):
         explanation=("Per shape and tie pattern the sigma returned by the real _compute is reduced to its exact normal form sigma_in*sqrt(max(a,b)); b = kappa, 1 - a = the variance step, which is proved >= 0 term-wise after raising to common denominators (w, wt, gamma >= 0 from contracts), so 0 < Y <= 1; "
                      "the same is proved for the sigma returned by the real rate() on every path of the sort for symbolic rank values and per-call tau, with sigma_in = sqrt(prior^2+tau^2), and with limit_sigma the result is the prior itself or satisfies the path condition sigma <= prior. "
                      "Shape-independent lemmas by z3 give 0 < sigma*sqrt(Y) <= sigma, prior <= sqrt(prior^2+tau^2) and the inductive history step."),
-        shapes=sorted({(str(u[1][1]) if u[0] != "unit_anysize" else f"n={u[1][1]}, every team size") for u in units(tier) if len(u[1]) > 1}),
+        shapes=sorted({(str(u[1][1]) if u[0] != "unit_anysize" else f"n={u[1][1]}, every team size") for u in units(tier) if len(u[1]) > 1 and u[0] != "unit_anysize_rate"} | {f"rate(): n={u[1][1]}, {u[1][2]}, limit_sigma={u[1][3]}, every team size" for u in units(tier) if u[0] == "unit_anysize_rate"}),
     )
